@@ -26,6 +26,8 @@ import (
 	"verifharness/internal/envb"
 	"verifharness/internal/kit"
 	"verifharness/internal/mocks"
+
+	pf "github.com/notaryproject/notation-plugin-framework-go/plugin"
 	"verifharness/internal/pki"
 	"verifharness/internal/rp"
 	"verifharness/internal/stats"
@@ -43,9 +45,16 @@ type Case struct {
 	Scheme     string            `json:"scheme"`
 	Format     string            `json:"format"`
 	Level      kit.Level         `json:"level"`
-	Token      bool              `json:"token"` // envelope carries a valid RFC 3161 countersignature (x509 only)
+	Token      bool              `json:"token"`     // envelope carries a valid RFC 3161 countersignature (x509 only)
 	RealStore  bool              `json:"realStore"` // the directory-backed trust store instead of the scripted one
 	Warmup     []Step            `json:"warmup"`    // verifications performed on the SAME verifier before the judged one
+	// Plugin: the signature names a verification plugin that is installed and answers success:
+	// "ti" trusted-identity capability, "rev" revocation capability, "both"; a plugin verdict
+	// never replaces the trust-store step
+	Plugin string `json:"plugin,omitempty"`
+	// CaseTwin: the last statement's scope is the first statement's scope with another
+	// letter case in the host part (scopes are compared exactly)
+	CaseTwin bool `json:"caseTwin,omitempty"`
 }
 
 // Step is an earlier verification on the same verifier instance (its result is not judged;
@@ -113,6 +122,14 @@ func required(scheme string) string {
 
 func scopeOf(k int) string { return fmt.Sprintf("registry.example/c03/repo%d", k) }
 
+// scopeIn is statement k's scope in case c.
+func scopeIn(c Case, k int) string {
+	if c.CaseTwin && k > 0 && k == len(c.Statements)-1 {
+		return "Registry.Example/c03/repo0"
+	}
+	return scopeOf(k)
+}
+
 // model: does authenticity pass?
 func model(c Case) (pass bool, listedErr bool) {
 	req := required(c.Scheme)
@@ -143,6 +160,9 @@ func check(c Case) (string, string, bool) {
 	desc := kit.Artifact("c03")
 	spec := envb.Spec{Format: c.Format, Payload: envb.PayloadFor(desc.MediaType, desc.Digest.String(), desc.Size, nil), ContentType: envb.PayloadType,
 		Scheme: scheme, SigningTime: now.Add(-time.Hour), Chain: chain.X509(), Key: chain.Leaf().Key}
+	if c.Plugin != "" {
+		spec.Ext = []envb.Attr{{Key: envb.AttrPlugin, Critical: true, Value: "c03-plugin"}}
+	}
 	if c.Token && c.Scheme == "x509" {
 		spec.Timestamp = func(sig []byte) []byte {
 			return tsa.Token(pki.TokenSpec{Message: sig, Hash: 5 /* crypto.SHA256 */, GenTime: now.Add(-time.Hour), Accuracy: 1})
@@ -194,7 +214,7 @@ func check(c Case) (string, string, bool) {
 	doc := &trustpolicy.OCIDocument{Version: "1.0"}
 	for k, list := range c.Statements {
 		st := trustpolicy.OCITrustPolicy{Name: fmt.Sprintf("st%d", k), SignatureVerification: c.Level.SV(""), TrustStores: list,
-			TrustedIdentities: []string{"*"}, RegistryScopes: []string{scopeOf(k)}}
+			TrustedIdentities: []string{"*"}, RegistryScopes: []string{scopeIn(c, k)}}
 		if c.Wildcard && k == c.WildcardAt {
 			st.RegistryScopes = []string{"*"}
 		}
@@ -202,6 +222,11 @@ func check(c Case) (string, string, bool) {
 	}
 	opts := kit.Options()
 	opts.OCITrustPolicy = doc
+	if c.Plugin != "" {
+		caps := map[string][]pf.Capability{"ti": {pf.CapabilityTrustedIdentityVerifier}, "rev": {pf.CapabilityRevocationCheckVerifier},
+			"both": {pf.CapabilityRevocationCheckVerifier, pf.CapabilityTrustedIdentityVerifier}}[c.Plugin]
+		opts.PluginManager = &mocks.Manager{Plugins: map[string]pf.Plugin{"c03-plugin": &mocks.Plugin{Name: "c03-plugin", Version: "1.0.0", Capabilities: caps}}}
+	}
 	v, err := verifier.NewVerifierWithOptions(ts, opts)
 	if err != nil {
 		return "harness", "verifier construction: " + err.Error(), false
@@ -210,11 +235,11 @@ func check(c Case) (string, string, bool) {
 		if c.Wildcard && sel == c.WildcardAt {
 			return "registry.example/c03/unlisted@" + desc.Digest.String()
 		}
-		return scopeOf(sel) + "@" + desc.Digest.String()
+		return scopeIn(c, sel) + "@" + desc.Digest.String()
 	}
 	for _, w := range c.Warmup {
 		ws := spec
-		ws.Format, ws.Scheme, ws.Timestamp = w.Format, envb.SchemeX509, nil
+		ws.Format, ws.Scheme, ws.Timestamp, ws.Ext = w.Format, envb.SchemeX509, nil, nil
 		if w.Scheme == "sa" {
 			ws.Scheme = envb.SchemeSA
 		}
@@ -332,6 +357,18 @@ func record(rec *stats.Recorder, c Case, pass bool) {
 	if c.RealStore {
 		cl = append(cl, "real-directory-store")
 	}
+	if c.Plugin != "" {
+		cl = append(cl, "verification-plugin="+c.Plugin)
+		if !pass && c.Level.Effective()["authenticity"] == "log" {
+			cl = append(cl, "plugin-runs-after-logged-authenticity-failure")
+		}
+	}
+	if c.CaseTwin && len(c.Statements) > 1 {
+		cl = append(cl, "scope-case-twin")
+		if c.Select == 0 || c.Select == len(c.Statements)-1 {
+			cl = append(cl, "scope-case-twin-selected")
+		}
+	}
 	if len(c.Warmup) > 0 {
 		cl = append(cl, "reused-verifier")
 		for _, w := range c.Warmup {
@@ -346,7 +383,7 @@ func record(rec *stats.Recorder, c Case, pass bool) {
 		keys = append(keys, k+"="+v)
 	}
 	sort.Strings(keys)
-	rec.Case(dedup(cl), nt, stats.Fingerprint(strings.Join(keys, ";"), fmt.Sprint(c.Statements), c.Wildcard, c.WildcardAt, c.Select, c.Scheme, c.Format, c.Level.Key(), c.RealStore, fmt.Sprint(c.Warmup)), func() any { return c })
+	rec.Case(dedup(cl), nt, stats.Fingerprint(strings.Join(keys, ";"), fmt.Sprint(c.Statements), c.Wildcard, c.WildcardAt, c.Select, c.Scheme, c.Format, c.Level.Key(), c.RealStore, fmt.Sprint(c.Warmup), c.Plugin, c.CaseTwin), func() any { return c })
 }
 
 func dedup(in []string) []string {
@@ -393,6 +430,10 @@ func TestC03_Placements(t *testing.T) {
 		c.Wildcard = rapid.Bool().Draw(rt, "wildcard")
 		c.WildcardAt = rapid.IntRange(0, n-1).Draw(rt, "wildcardAt")
 		c.Select = rapid.IntRange(0, n-1).Draw(rt, "select")
+		c.Plugin = rp.Pick(rt, "plugin", "", "", "", "ti", "ti", "rev", "both")
+		if n > 1 && !(c.Wildcard && (c.WildcardAt == 0 || c.WildcardAt == n-1)) {
+			c.CaseTwin = rapid.IntRange(0, 2).Draw(rt, "caseTwin") == 0
+		}
 		for i := 0; i < rp.Pick(rt, "warmups", 0, 0, 1, 2, 3); i++ {
 			c.Warmup = append(c.Warmup, Step{Scheme: rp.Pick(rt, "wScheme", "x509", "sa"), Format: rp.Pick(rt, "wFormat", envb.MTJWS, envb.MTCOSE), Select: rapid.IntRange(0, n-1).Draw(rt, "wSelect")})
 		}
